@@ -2,6 +2,8 @@ import BurrowVerif.Model.Storage
 import BurrowVerif.Model.Group
 import BurrowVerif.Model.Float32
 import BurrowVerif.Model.EvalCache
+import BurrowVerif.Model.Http
+import BurrowVerif.Generated.Http
 import Driver.Util
 
 namespace Driver.StorageD
@@ -160,6 +162,128 @@ structure CSt where
   store  : St := none
   ccfg   : Option (Int × Nat × Nat) := none          -- expire (s), minimum-complete bits, allowed lag
   cache  : EvalCache.Cache Group.GroupStatus := []
+  cfg    : Http.Cfg := []
+
+def unhexStr? (s : String) : Option String :=
+  if s == "-" then some "" else do
+    let bs ← hexBytes? s
+    String.fromUTF8? (ByteArray.mk bs.toArray)
+
+def hexOfStr (s : String) : String := if s.isEmpty then "-" else toHex s.toUTF8.toList
+
+/-- one status request through the cache model (shared by `cq`, the HTTP status routes and the scrape);
+    returns the new state, the result, the cache path taken and a fresh evaluation for the Spec oracle -/
+def statusQuery (st : CSt) (now : Int) (c g : String) : CSt × Option Group.GroupStatus × EvalCache.Path × Option Group.GroupStatus :=
+  match st.ccfg, st.store with
+  | some (expire, minBits, allowed), some s =>
+    let cfg : EvalCache.Cfg := { expire }
+    let key := EvalCache.mkKey c.toList g.toList
+    -- the cache clock is frozen at 0 by the harness (expiries are relative to the query instant)
+    let p := EvalCache.path st.cache key 0
+    let (s', looked) : Store × Option (Option Group.GroupStatus) :=
+      if p == .hit then (s, none) else
+        let (s', r) := fetchConsumer s now (name c) (name g)
+        (s', some (match r with
+          | .found topics => Group.evaluateGroup (F32.meets minBits) now allowed topics
+          | _ => none))
+    let (cache', result) := EvalCache.query cfg st.cache key 0 (fun _ => looked.join)
+    let freshNow : Option Group.GroupStatus :=
+      match (fetchConsumer s now (name c) (name g)).2 with
+      | .found topics => Group.evaluateGroup (F32.meets minBits) now allowed topics
+      | _ => none
+    ({ st with store := some s', cache := cache' }, result, p, freshNow)
+  | _, _ => (st, none, .miss, none)
+
+/-- the HTTP backend over the driver state at clock value `now`; path parameters arrive as plain
+    text and are hex-encoded to address the store -/
+def backend (now : Int) : Http.Backend CSt where
+  clusters st := match st.store with | some s => fetchClusterList s | none => []
+  topics st c := st.store.bind fun s => fetchTopicList s (hexOfStr c)
+  topicDetail st c t := st.store.bind fun s => fetchTopic s (hexOfStr c) (hexOfStr t)
+  topicConsumers st c t := st.store.bind fun s => fetchConsumersForTopic s (hexOfStr c) (hexOfStr t)
+  consumers st c := st.store.bind fun s => fetchConsumerList s (hexOfStr c)
+  consumerDetail st c g :=
+    match st.store with
+    | some s =>
+      let (s', r) := fetchConsumer s now (name (hexOfStr c)) (name (hexOfStr g))
+      ({ st with store := some s' }, match r with | .found t => some t | _ => none)
+    | none => (st, none)
+  status st c g _ :=
+    let (st', r, _, _) := statusQuery st now (hexOfStr c) (hexOfStr g)
+    (st', r)
+  deleteGroup st c g t :=
+    match st.store with
+    | some s => { st with store := some (deleteGroup s { cluster := name (hexOfStr c), group := name (hexOfStr g), topic := name (hexOfStr t) }).1 }
+    | none => st
+  cfg st := st.cfg
+
+/-- the scrape addresses the store with the names the listings return (already hex) -/
+def scrapeBackend (now : Int) : Http.Backend CSt :=
+  { backend now with
+    topics := fun st c => st.store.bind fun s => fetchTopicList s c
+    topicDetail := fun st c t => st.store.bind fun s => fetchTopic s c t
+    consumers := fun st c => st.store.bind fun s => fetchConsumerList s c
+    status := fun st c g _ => let (st', r, _, _) := statusQuery st now c g; (st', r) }
+
+def parseCfgVal? (s : String) : Option Http.CfgVal :=
+  match s.splitOn ":" with
+  | ["s", v] => (unhexStr? v).map .str
+  | ["i", v] => v.toInt?.map .int
+  | ["b", v] => some (.bool (v == "true"))
+  | ["l", v] => (parseList? v "," unhexStr?).map .list
+  | _ => none
+
+def parseCfg? (s : String) : Option Http.Cfg :=
+  parseList? s ";" fun e =>
+    match e.splitOn "=" with
+    | [p, v] => do
+      let path ← (p.splitOn ".").mapM unhexStr?
+      let v ← parseCfgVal? v
+      pure (path, v)
+    | _ => none
+
+def showFieldVal : Http.FieldVal → String
+  | .s v => "s:" ++ hexOfStr v
+  | .i v => "i:" ++ toString v
+  | .b v => "b:" ++ (if v then "true" else "false")
+  | .l v => "l:" ++ (if v.isEmpty then "-" else ",".intercalate (v.map hexOfStr))
+  | .m v => "m:" ++ (if v.isEmpty then "-" else ",".intercalate (sortStrings (v.map fun (k, x) => hexOfStr k ++ ":" ++ hexOfStr x)))
+  | .null => "null"
+
+def showJOffset : Option Commit → String
+  | none => "nil"
+  | some c => s!"{c.offset}:{c.ts}:{match c.lag with | none => "-" | some l => toString l}"
+
+def renderJTopics (topics : ConsumerTopics) : String :=
+  let sorted := topics.foldl (fun acc x => insertSortedBy (fun (p : String × List Eval.Partition) => unname p.1) x acc) []
+  if sorted.isEmpty then "-" else
+  ",".intercalate (sorted.map fun (t, parts) =>
+    unname t ++ "[" ++ "|".intercalate (parts.map fun p =>
+      s!"{p.currentLag}/{unname p.owner}/{unname p.clientID}/" ++
+        (if p.offsets.isEmpty then "-" else ";".intercalate (p.offsets.map showJOffset))) ++ "]")
+
+def showResp (r : Http.Resp) : String :=
+  let ct := match r.ctype with | .json => "json" | .text => "text" | .none => "none"
+  let err := match r.err with | some true => "true" | some false => "false" | none => "-"
+  let hdr := hexOfStr r.header
+  let body := match r.payload with
+    | .none => "kind=plain"
+    | .names key l => s!"kind=names key={key} list={showList l}"
+    | .offsets l => "kind=offsets offs=" ++ showInts l
+    | .topics t => "kind=topics t=" ++ renderJTopics t
+    | .status c g none => s!"kind=status rc={hexOfStr c} rg={hexOfStr g} gs=0 complete=3f800000 count=0 total=0 maxlag=- parts=-"
+    | .status c g (some gs) => s!"kind=status rc={hexOfStr c} rg={hexOfStr g} " ++ renderGroupStatus gs
+    | .module fs => "kind=module mod=" ++ ";".intercalate (sortStrings (fs.map fun (k, v) => k ++ "=" ++ showFieldVal v))
+    | .moduleList coord l => s!"kind=modlist coord={coord} list={showList (l.map hexOfStr)}"
+    | .other w => if w == "empty" then "kind=empty" else "kind=plain"
+  s!"code={r.code} ct={ct} err={err} hdr={hdr} {body}"
+
+def showSeries (l : List Http.Series) : String :=
+  -- a later write to the same series replaces the earlier one (a gauge)
+  let dedup := l.foldl (fun (acc : List (String × Int)) s =>
+    let k := s.name ++ "{" ++ "|".intercalate s.labels ++ "}"
+    (acc.filter (·.1 != k)) ++ [(k, s.value)]) []
+  if dedup.isEmpty then "-" else ";".intercalate (sortStrings (dedup.map fun (k, v) => k ++ "=" ++ toString v))
 
 def stepC (st : CSt) (args : List String) : CSt × String :=
   match args with
@@ -173,29 +297,71 @@ def stepC (st : CSt) (args : List String) : CSt × String :=
     | none => (st, "bad-op")
   | ["cq", now, c, g, showAll] =>
     match parseInt? now, st.ccfg, st.store with
-    | some now, some (expire, minBits, allowed), some s =>
-      let cfg : EvalCache.Cfg := { expire }
-      let key := EvalCache.mkKey c.toList g.toList
-      -- the cache clock is frozen at 0 by the harness (expiries are relative to the query instant)
-      let p := EvalCache.path st.cache key 0
-      let (s', looked) : Store × Option (Option Group.GroupStatus) :=
-        if p == .hit then (s, none) else
-          let (s', r) := fetchConsumer s now (name c) (name g)
-          (s', some (match r with
-            | .found topics => Group.evaluateGroup (F32.meets minBits) now allowed topics
-            | _ => none))
-      let (cache', result) := EvalCache.query cfg st.cache key 0 (fun _ => looked.join)
+    | some now, some (expire, _, _), some _ =>
+      let (st', result, p, freshNow) := statusQuery st now c g
       -- Spec oracle (C05 freshness with lifetime 0): a hit must equal a fresh evaluation
-      let freshNow : Option Group.GroupStatus :=
-        match (fetchConsumer s now (name c) (name g)).2 with
-        | .found topics => Group.evaluateGroup (F32.meets minBits) now allowed topics
-        | _ => none
       let viol := expire == 0 && p == .hit && result != freshNow
       let out := match result with
         | none => "gs=0 complete=3f800000 count=0 total=0 maxlag=- parts=-"
         | some gs => renderGroupStatus (if showAll == "1" then gs else Group.filterView gs)
-      ({ st with store := some s', cache := cache' }, s!"rc={c} rg={g} {out} ~path={repr p}" ++ (if viol then " ~specviol=D16" else ""))
+      (st', s!"rc={c} rg={g} {out} ~path={repr p}" ++ (if viol then " ~specviol=D16" else ""))
     | _, _, _ => (st, "bad-op")
+  | ["secrets", _] => (st, "ok")
+  | ["httpinit", leaves] =>
+    match parseCfg? leaves with
+    | some cfg => ({ st with cfg }, "ok")
+    | none => (st, "bad-op")
+  | ["http", _, _, "invalid"] => (st, "code=400 ct=none err=- hdr=- kind=invalid-url")
+  | ["http", now, method, path] =>
+    match parseInt? now, unhexStr? path with
+    | some now, some path =>
+      let (st', r) := Http.respond Burrow.Generated.routes (backend now) st method path
+      -- the status routes answer with the view asked for
+      let r := match r.payload with
+        | .status c g (some gs) =>
+          if (Http.route Burrow.Generated.routes method path matches .handler "handleConsumerStatus" _) then
+            { r with payload := .status c g (some (Group.filterView gs)) } else r
+        | _ => r
+      let r : Http.Resp := if r.code == 307 then { r with ctype := .none, payload := .other "empty" } else
+        match Http.route Burrow.Generated.routes method path with
+        | .options _ => { r with payload := .other "empty" }
+        | _ => r
+      -- httprouter's trailing-slash recommendation depends on the shape of its radix tree: for a path
+      -- ending in "/" that matches no pattern, "redirect" and "not found" are both admitted (DESIGN 4.16)
+      -- Spec oracles for the listed known findings (the model reproduces the code's behaviour there)
+      let viol : String :=
+        match Http.route Burrow.Generated.routes method path, st.store with
+        | .handler h ps, some s =>
+          let c := hexOfStr (Http.param ps "cluster"); let g := hexOfStr (Http.param ps "consumer")
+          if h == "handleTopicDetail" && r.code == 200 &&
+             (match topicOffsetsByPartition s c (hexOfStr (Http.param ps "topic")) with
+              | some l => positionsShifted l | none => false) then " ~specviol=D8"
+          else if h == "handleConsumerDelete" && r.code == 200 &&
+             (match fetchConsumerList s c with | some l => !l.contains (name g) | none => true) then " ~specviol=D18"
+          else if r.code == 200 && (h == "handleClusterDetail" || h == "configStorageDetail" || h == "configEvaluatorDetail" ||
+              h == "configConsumerDetail" || h == "configNotifierDetail") then
+            let kind := if h == "handleClusterDetail" then "cluster" else ((h.drop 6).dropEnd 6).toString.toLower
+            let nm := if h == "handleClusterDetail" then Http.param ps "cluster" else Http.param ps "name"
+            if (st.cfg.children [kind]).contains nm.toLower then "" else " ~specviol=D15"
+          else ""
+        | _, _ => ""
+      let tsr := path.length > 1 && path.endsWith "/" &&
+        (match Http.route Burrow.Generated.routes method path with
+         | .redirect _ _ => true | .notFound => true | _ => false)
+      (st', if tsr then "code=tsr" else showResp r ++ viol)
+    | _, _ => (st, "bad-op")
+  | ["scrape", now] =>
+    match parseInt? now with
+    | some now =>
+      let (st', series) := Http.scrapeWrites (scrapeBackend now) st
+      let series := series.map fun s =>
+        { s with labels := s.labels.zipIdx.map fun (l, i) => if i == 3 || (s.name == "burrow_kafka_topic_partition_offset" && i == 2) then hexOfStr l else l }
+      let shifted := match st'.store with
+        | some s => (fetchClusterList s).any fun c => ((fetchTopicList s c).getD []).any fun t =>
+            (match topicOffsetsByPartition s c t with | some l => positionsShifted l | none => false)
+        | none => false
+      (st', "code=200 series=" ++ showSeries series ++ (if shifted then " ~specviol=D8" else ""))
+    | none => (st, "bad-op")
   | _ =>
     let (s', out) := step st.store args
     ({ st with store := s' }, out)
